@@ -774,7 +774,13 @@ func (fr *Frame) callCommon(cc *ssa.CallCommon, args []Val, fv Val, res ssa.Valu
 		}
 	}
 	if callee == nil {
-		fr.assertAtCall("dynamic", args, cc.Signature())
+		dynName := "dynamic"
+		if u, ok := cc.Value.(*ssa.UnOp); ok {
+			if g, ok := u.X.(*ssa.Global); ok {
+				dynName = g.Pkg.Pkg.Path() + "." + g.Name() // call through a package-level function variable
+			}
+		}
+		fr.assertAtCall(dynName, args, cc.Signature())
 		e.havocCallees["<dynamic call in "+fr.prefix+">"] = true
 		return fr.havocCall("dynamic", resT, nil)
 	}
@@ -1629,6 +1635,11 @@ func (fr *Frame) sourceOrdinal(sel string) int {
 				name = f.String()
 			} else {
 				name = "dynamic"
+				if u, ok := cc.Value.(*ssa.UnOp); ok {
+					if g, ok := u.X.(*ssa.Global); ok {
+						name = g.Pkg.Pkg.Path() + "." + g.Name()
+					}
+				}
 			}
 			if calleeMatches(name, sel) {
 				all = append(all, cp{in, int(in.Pos()), seq})
